@@ -15,7 +15,7 @@ from .. import mir, finite, ebnf
 from ..mir import short, last, strip, walk, norm, is_call
 from . import common
 
-LEVEL = "other"
+LEVEL = "translation_validation"
 
 SIMPLE = {"n": "\n", "r": "\r", "t": "\t", "\\": "\\", "'": "'", '"': '"'}
 DIRECTIVE_FLAG = {"@string": "string", "@no_skip_ws": "no_skip_ws", "@export": "export", "@position": "position",
@@ -280,4 +280,4 @@ def run(cx, chk):
     except ImportError:
         lift_rules = None
     if lift_rules is not None:
-        lift_rules.check_tv(cx, chk, "C12.front", only=("bootstrap",))
+        lift_rules.check_tv(cx, chk, "C12.front", only=("bootstrap",), floor=50)
